@@ -48,7 +48,9 @@ def strategy(tier, phase):
 
     step = st.tuples(st.integers(0, len(PASSES) - 1), st.integers(0, 7)).map(list)
     return st.fixed_dictionaries({"tape": rmodel.tape_strategy(), "steps": st.lists(step, min_size=1, max_size=6), "wrap": st.integers(0, 3),
-                                  "gen": st.sampled_from([2, 3, 4, 4]), "prelude": st.one_of(st.just([]), st.just([]), rmodel.tape_strategy(100))})
+                                  "gen": st.sampled_from([2, 3, 4, 4]), "prelude": st.one_of(st.just([]), st.just([]), rmodel.tape_strategy(100)),
+                                  # ... or the prelude is the model under test with a few tape positions changed (the "same" model before an edit)
+                                  "prelude_edit": st.one_of(st.just([]), st.just([]), st.lists(st.tuples(st.integers(0, 80), st.integers(0, 2**16)).map(list), min_size=1, max_size=3))})
 
 
 def make_pass(idx, param):
@@ -110,6 +112,11 @@ def _evaluate(case):
     fails = []
     names = [PASSES[i % len(PASSES)] for i, _ in steps]
     prelude = case.get("prelude") or []
+    if not prelude and case.get("prelude_edit"):
+        prelude = list(case["tape"])
+        for pos, val in case["prelude_edit"]:
+            if prelude:
+                prelude[pos % len(prelude)] = val
     try:
         shared_ps = [make_pass(i, p) for i, p in steps]
     except Exception:
